@@ -48,6 +48,12 @@ pub proof fn verif_vacuity_c08_unknown_must_fail(s: Seq<char>, rt: Result<Generi
         parse_post::<PackageType>(s, rt),
     ensures false
 { }
+pub proof fn verif_vacuity_c16_must_fail<E: Error>(s: Seq<char>, g: GenericPurl<PackageType>, r: Result<GenericPurl<PackageType>, E>)
+    requires
+        parse_post::<PackageType>(s, Ok::<GenericPurl<PackageType>, PackageError>(g)),
+        de_post::<PackageType, E>(canon_spec(g.package_type.type_text(), g.parts), r),
+    ensures false
+{ }
 pub proof fn verif_vacuity_c09_typed_must_fail(t0: PackageType, p0: PurlParts, t1: PackageType, p1: PurlParts, fr: Result<(), PackageError>,
                                g: GenericPurl<PackageType>, r2: Result<GenericPurl<PackageType>, PackageError>)
     requires
@@ -89,5 +95,7 @@ impl vstd::std_specs::convert::FromSpecImpl<UnsupportedPackageType> for PackageE
         dict(id='theory.c01_typed', kind='raw', text=_c.theory_text('c01_typed.rs')),
         dict(id='theory.c09', kind='raw', text=_c.theory_text('c09.rs')),
         dict(id='theory.c08', kind='raw', text=_c.theory_text('c08.rs')),
+        dict(id='theory.serde_post', kind='raw', text=_c.theory_text('serde_post.rs')),
+        dict(id='theory.c16', kind='raw', text=_c.theory_text('c16.rs')),
     ],
 )
